@@ -48,6 +48,8 @@ ASSUMES = [
     "numbers) under C13_vflip_side_conditions: odd matching-cost window, odd median filter_size, odd EFFECTIVE "
     "bilateral window min(rows, cols, int(3*sigma_space+1)) with a row-symmetric spatial kernel, census window 3/5, "
     "cbca_distance >= 1, symmetric border flag statements (re-proved on the regenerated sites)",
+    "side condition of the bilateral flip theorem: the spatial kernel the real filter builds for the window in effect is "
+    "symmetric in rows (checked exactly on every compared bilateral pipeline); the range kernel is a function of its argument",
     "side condition of cross-checking locality (px_ok): a still-valid pixel holds a disparity that rounds into its "
     "interval; checked on the final maps of every run",
     "exact domain (DESIGN 2.1 a): radiometry bounded so that every window sum of the measure is exact in float32; "
@@ -306,6 +308,18 @@ def check_case(ctx, model, case):
                       if c.get("filter_method") == "bilateral") and \
             all(int(c["filter_size"]) % 2 == 1 for _, c in pipeline if c.get("filter_method") == "median")
         flip_ok = info["odd_windows"] and eff_odd and info["measure"] != "zncc" and not (info["cbca"] and not exact_cbca)
+        # side condition of C13_bilateral_step_vflip on the data of the real filter: the spatial kernel it builds for the
+        # window in effect is symmetric in rows (sk[win-1-a, b] == sk[a, b], exactly)
+        for _, c in pipeline:
+            if c.get("filter_method") == "bilateral" and eff_odd:
+                import pandora.filter as flt
+                fobj = flt.AbstractFilter(cfg=dict(c), image_shape=(rows, cols), step=1)
+                wk = min(rows, cols, int(3 * c["sigma_space"] + 1))
+                sk = np.asarray(fobj.gauss_spatial_kernel(wk, c["sigma_space"]))
+                ctx.count("side_condition_bilateral_kernel_row_symmetric_checked")
+                if not same(sk, np.ascontiguousarray(sk[::-1])):
+                    ctx.mismatch("assumption_bilateral_kernel_row_symmetric", {"window": wk, "sigma_space": c["sigma_space"]},
+                                 sk.tolist(), sk[::-1].tolist())
         if not flip_ok:
             ctx.count("flip_not_compared_even_window_or_real_valued")
             return
